@@ -113,7 +113,8 @@ func c08Gen(rt *rapid.T) *hist.Case {
 	action := rapid.Custom(func(rt *rapid.T) hist.Action {
 		switch rapid.IntRange(0, 10).Draw(rt, "kind") {
 		case 0, 1, 2:
-			return hist.Action{Kind: "publish", Client: 0, Topic: pick(rt, "topic", []string{"t/a", "t/b"}), QoS: 2, PIDPool: rapid.IntRange(1, 3).Draw(rt, "pool")}
+			// one in five: the connection is lost right behind the PUBLISH (the broker processes it but cannot answer)
+			return hist.Action{Kind: "publish", Client: 0, Topic: pick(rt, "topic", []string{"t/a", "t/b"}), QoS: 2, PIDPool: rapid.IntRange(1, 3).Draw(rt, "pool"), ThenDrop: rapid.IntRange(0, 4).Draw(rt, "then-drop") == 0}
 		case 3, 4, 5:
 			return hist.Action{Kind: "publish", Client: 0, Retransmit: rapid.IntRange(1, 3).Draw(rt, "which")}
 		case 6, 7:
@@ -130,6 +131,10 @@ func c08Gen(rt *rapid.T) *hist.Case {
 		}
 	})
 	for _, a := range rapid.SliceOfN(action, 3, 30).Draw(rt, "actions") {
+		if a.Kind == "publish" && a.ThenDrop {
+			c.Actions = append(c.Actions, a, pubConnect)
+			continue
+		}
 		if a.Kind == "reconnect" || a.Kind == "drop" || a.Kind == "close" {
 			if a.Kind != "reconnect" {
 				c.Actions = append(c.Actions, a)
